@@ -158,7 +158,18 @@ def _run(V, work, tier):
     registry = [json.loads(l) for l in rout.splitlines() if l.strip()]
     errp = [{"id": "e%d" % i, "seq": [p], "cfg": {}} for i, p in enumerate(errmsg_programs(rnd, registry, 24 if thorough else 8))]
     V.coverage["callables_with_error_text_checked"] = len(errp)
-    allp = mdrv + wide + listing + errp
+    # a small allocation limit: which of several offending parts of one value is reported must not vary
+    H = "(handler-bind ((condition (lambda (c &rest r) (debug-print c r) (format-string \"{} {}\" c r)))) %s)"
+    docs = ['{"alpha":[1,2,3,4,5],"beta":[1,2,3,4,5,6],"gamma":[1,2,3,4,5,6,7]}', '{"k9":{"a":[1,2,3,4,5,6]},"k1":{"b":[1,2,3,4,5,6,7,8]},"k5":[1,2,3,4,5]}',
+            '[{"z":[1,2,3,4,5],"a":[1,2,3,4,5,6]},{"m":[1,2,3,4,5,6,7]}]', '{"s1":"abcdefgh","s2":"abcdefghij","l":[1,2,3,4,5]}']
+    allocp = []
+    for i, d in enumerate(docs):
+        for opts in ("", " :string-numbers true", " :exact-integers true"):
+            allocp.append({"id": "a%d%s" % (i, opts.replace(" ", "")), "seq": [H % ("(json:load-string %s%s)" % (json.dumps(d), opts))], "cfg": {"maxalloc": 4}})
+    for i, f in enumerate(["(make-sequence 0 10)", "(list (make-sequence 0 9) (make-sequence 0 7))", "(concat 'list (list 1 2 3) (list 4 5 6))", "(zip 'list (list 1 2 3 4 5) (list 1 2 3 4 5 6))",
+                           "(map 'list identity (list 1 2 3 4 5 6))", "(string:repeat \"ab\" 9)", "(sorted-map \"a\" (vector 1 2 3 4 5) \"b\" (vector 1 2 3 4 5 6))"]):
+        allocp.append({"id": "al%d" % i, "seq": [H % f], "cfg": {"maxalloc": 4}})
+    allp = mdrv + wide + listing + errp + allocp
     reps = 8 if thorough else 4
     # one process: every program `reps` times at shuffled positions (other runtimes ran other things in between)
     stream = []
